@@ -74,7 +74,11 @@ class DirDBM:
         Encode a key so it can be used as a filename.
         """
         # NOTE: '_' is NOT in the base64 alphabet!
-        return base64.encodebytes(k).replace(b"\n", b"_").replace(b"/", b"-")
+        # The empty key encodes to the empty string, which as a file name
+        # would designate the database directory itself; store it as "_"
+        # (which L{_decode} maps back to the empty key, and which no other
+        # key encodes to).
+        return base64.encodebytes(k).replace(b"\n", b"_").replace(b"/", b"-") or b"_"
 
     def _decode(self, k):
         """
